@@ -133,11 +133,15 @@ impl<'a, 'b> Generator<'a, 'b> {
     pub fn generate(&mut self, ir: &Vec<IR>, require: Option<&String>) {
         write!(self.out, include_str!("preamble.lua"));
         if let Some(file) = require {
-            write!(
-                self.out,
-                "require \"{}\"",
-                file.strip_suffix(".lua").unwrap_or(file)
-            );
+            // The name is data, not Lua source - write it as a string literal.
+            let module = file
+                .strip_suffix(".lua")
+                .unwrap_or(file)
+                .replace("\\", "\\\\")
+                .replace("\"", "\\\"")
+                .replace("\n", "\\n")
+                .replace("\r", "\\r");
+            write!(self.out, "require \"{}\"", module);
         }
 
         let mut depth = 0;
